@@ -470,6 +470,23 @@ class Sym:
             return [leaf], []
         if ct in (('c', False), ('c', None)) or known is False:
             return [], [leaf]
+        # constant folding of comparisons: both sides constants, or the same pure term on both sides
+        if ct[0] == 'cmp' and ct[2][0] == 'c' and ct[3][0] == 'c':
+            a_, b_ = ct[2][1], ct[3][1]
+            try:
+                r_ = {'==': lambda: a_ == b_, '!=': lambda: a_ != b_, 'is': lambda: a_ is b_ or (a_ == b_ and type(a_) == type(b_)), 'is not': lambda: not (a_ is b_ or (a_ == b_ and type(a_) == type(b_))),
+                      '<': lambda: a_ < b_, '<=': lambda: a_ <= b_, '>': lambda: a_ > b_, '>=': lambda: a_ >= b_}.get(ct[1], lambda: None)()
+            except TypeError:
+                r_ = None
+            if r_ is True:
+                return [leaf], []
+            if r_ is False:
+                return [], [leaf]
+        if ct[0] == 'cmp' and ct[2] == ct[3] and _pure(ct[2]):
+            if ct[1] in ('==', '>=', '<=', 'is'):
+                return [leaf], []
+            if ct[1] in ('!=', '<', '>', 'is not'):
+                return [], [leaf]
         # a pure condition already decided on this path keeps its value (no contradictory paths)
         if _pure(ct):
             for c0, t0, _ in leaf.conds:
